@@ -4,5 +4,6 @@ CONSTANTS Design = "repaired"
           MaxCycles = 2
           MaxAdv = 3
           MaxReads = 1
+          MaxExt = 1
 INVARIANTS LinesWholeInOrder FileNameRight RotatesAfterCycle SuppressedOnlyWithin RetentionExact ReadHonest SurvivorsSurvive OldRemoved
 CHECK_DEADLOCK FALSE
